@@ -639,7 +639,12 @@ pub fn execute(sc: &EntropySc, full_list: &[String]) -> Executed {
                 });
                 match res {
                     Err(x) => push(&mut vs, x),
-                    Ok(None) => push(&mut vs, v("C13", "missing", "NAME.RANDBOUNDNAME", "no name pushed".into())),
+                    // (with no name bound the statement asks for nothing: a fresh name and no push are both fine)
+                    Ok(None) => {
+                        if !keys.is_empty() {
+                            push(&mut vs, v("C13", "missing", "NAME.RANDBOUNDNAME", format!("no name pushed although {} names are bound", keys.len())))
+                        }
+                    }
                     Ok(Some(n)) => {
                         if !keys.is_empty() && !keys.contains(&n) {
                             push(&mut vs, v("C13", "bound-name", "NAME.RANDBOUNDNAME", format!("{:?} is not one of the {} bound names", n, keys.len())));
